@@ -210,7 +210,7 @@ def r2_4(cx):
     prog = cx.prog
     for a, b, sub in PAIRS:
         fa, fb = prog.fn(a), prog.fn(b)
-        d = diff(skeleton(fa, sub), skeleton(fb, sub))
+        d = diff(skeleton(fa, sub, canonical=True), skeleton(fb, sub, canonical=True))
         cx.count_sites()
         cx.check(d is None, 'twins:%s' % short(a), fa, None, '%s == %s up to %s' % (short(a), short(b), '/'.join(sorted(set(sub.values())))),
                  fail_detail='%s and %s diverge (block %s): %s  VS  %s' % (short(a), short(b), d[0] if d else '', d[1][:150] if d else '', d[2][:150] if d else ''))
@@ -242,7 +242,15 @@ def r2_5(cx):
         fn = prog.fn(ES + '::' + nm)
         stores = [(pos, fn.rvalue_expr(rv).strip()) for pos, pl, rv in fn.stores() if pl['p'] and pl['p'][-1].get('n') == 'current_chunk_size' and rv is not None]
         cx.count_sites()
-        ok = len(stores) == 1 and stores[0][1].kind == 'binop' and stores[0][1].op == 'Add'
+        ok = len(stores) == 1 and stores[0][1].kind == 'binop' and stores[0][1].op == 'Add' and is_param_field(stores[0][1].a, 'current_chunk_size')
+        if ok:
+            inc = stores[0][1].b.strip()
+            pushes = [cs for cs in fn.calls() if cs.matches('OwningIovec::push') or cs.matches('OwningIovec::push_copy')]
+            if nm == 'write_partial_stuff_sequence':
+                ok = inc.is_const_int(1) and len(pushes) == 1
+            else:
+                ok = is_call(inc, 'len') and inc.args[0].strip().kind == 'param' and len(pushes) == 1 and pushes[0].arg(1).strip().kind == 'param' and \
+                    pushes[0].arg(1).strip().info['i'] == inc.args[0].strip().info['i']
         if ok:
             pos = stores[0][0]
             # after the store, every path to return passes the edge asserting current <= max
@@ -257,7 +265,7 @@ def r2_5(cx):
             ok = bool(good_edges) and all(fn.pos_dominates(pos, Pos(b, 0)) or pos.bb == b for _, b in good_edges) and \
                 fn.path(pos.bb, fn.returns(), cut_edges=[e for e, _ in good_edges], cut_blocks=[]) is not None and \
                 all(fn.path(e[1], fn.returns()) is None for e, _ in good_edges)
-        cx.check(ok, 'asserted:' + nm, fn, None, 'current_chunk_size += n; assert!(current_chunk_size <= max_chunk_size)',
+        cx.check(ok, 'asserted:' + nm, fn, None, 'push(payload); current_chunk_size += payload.len() (the same payload); assert!(current_chunk_size <= max_chunk_size)',
                  fail_detail='%s grows the chunk without asserting the limit' % nm)
     tm = prog.fn(ES + '::terminate')
     eh = list(tm.calls(ES + '::encode_header'))
@@ -284,6 +292,27 @@ def check_find_stuff(cx):
     fn = prog.fn('hcobs::find_stuff_sequence')
     seq = prog.const_bytes('hcobs::STUFF_SEQUENCE').hex()
     heads = fn.loop_headers()
+    pi = position_idiom(prog, fn.local_expr(0, [])) if not heads else None
+    if pi is not None:
+        # iterator-chain spelling: bytes.windows(2).position(|w| w == STUFF_SEQUENCE)
+        it, cl, ret = pi
+        cx.check(len(list(fn.calls())) <= 3 and len(list(cl.calls())) == 1, 'scan:one-loop', fn, None, 'a single Iterator::position over one iterator',
+                 fail_detail='more than the window iterator and its position search')
+        wi = list(it.calls('windows'))
+
+        def is_two(e):
+            e = e.strip()
+            if e.is_const_int(2):
+                return True
+            return e.kind == 'call' and e.op.endswith('len') and len(e.args) == 1 and [k.info.get('ref_bytes') for k in e.args[0].consts()] == [seq] \
+                and len(list(e.args[0].calls())) == 0
+        ok_it = len(wi) == 1 and len(list(it.calls())) <= 2 and wi[0].args[0].strip().kind == 'param' and is_two(wi[0].args[1])
+        cx.check(ok_it, 'scan:all-windows', fn, None, 'iterates bytes.windows(2) over the whole argument', fail_detail='the scan does not run over every window of the whole argument')
+        ok_s = ret.kind == 'call' and ret.op.endswith('::eq') and len(ret.args) == 2 and any(k.info.get('ref_bytes') == seq for k in ret.consts()) and \
+            any(a.strip().kind == 'param' and a.strip().info['i'] == 2 for a in ret.args) and len(list(ret.calls())) == 1
+        cx.check(ok_s, 'scan:first-match', fn, None, 'position(|w| w == STUFF_SEQUENCE): the index of the first equal window, None only when exhausted',
+                 fail_detail='the result is not (index of the first window == STUFF_SEQUENCE | None at exhaustion)')
+        return
     cx.check(len(heads) == 1, 'scan:one-loop', fn, None, 'a single loop', fail_detail='%d loops: not a plain linear scan (blocks skipped or searched separately can hide a sequence that straddles them)' % len(heads))
     nxt = [cs for cs in fn.calls('Iterator>::next')]
     ok_it = False
